@@ -7,7 +7,7 @@ from mir import Body, op_local
 LEVEL = "other"
 EXPLANATION = ("Necessary shape conditions of exactly-once delivery, decided on every path of the ring containers and the five Uni channels: (R01.1) write-before-publish / "
                "read-before-release: in every container publish* the payload write (ptr::write or the setter call) lies on the Some edge of the reservation and dominates the "
-               "publication, in consume_movable the ptr::read of the slot dominates its release, and in every channel send_with_async the publication is dominated by the "
+               "publication, in consume_movable the ptr::read of the slot dominates its release (for the zero-copy containers' callback-style consume: the getter call dominates the slot release), and in every channel send_with_async the publication is dominated by the "
                "setter's call and by the Ready edge of its await; slots are moved out only by ptr::read inside the rings' consume_movable; (R01.2) the channel's verdict is the "
                "container's answer: every `RetryResult::Ok` is dominated by the success edge of every publication-outcome test on its path and every `Transient` by a failure "
                "edge (no swapped or swallowed arm), for send / send_with / send_with_async of the five channels; (R01.3) a rejected send hands back the moved-in item / setter "
@@ -120,6 +120,7 @@ def check(ctx):
         ctx.ob("R01.1", f"{k}|read-before-release", ok, f"{body.f['file']}:{body.f['line']}", "the slot is copied out (ptr::read) before it is released for reuse, once each")
         r0 = strip_casts(dg.local(0))
         ctx.ob("R01.1", f"{k}|returns-what-it-read", _mentions(r0, lambda x: x[0] == "call" and x[1].endswith("ptr::read")) or r0[0] == "phi", f"{body.f['file']}:{body.f['line']}", f"returns `{show(r0)[:100]}`")
+    check_zero_copy_getters(ctx, "R01.1")
     # who moves payloads out of ring slots
     for f in fx.fns:
         if not (f["key"].startswith("ogre_std::ogre_queues::atomic::atomic_move") or f["key"].startswith("ogre_std::ogre_queues::full_sync::full_sync_move")): continue
@@ -266,3 +267,25 @@ def _crossbeam_send(ctx, fx, k, body, dg):
                 inp = cd.expr(ops[fields.index("input")])
                 back = _mentions(inp, lambda x: x[0] == "param") or "item" in show(inp)
                 ctx.ob("R01.3", f"{k}|rejected-input-handed-back|{variant}", back, cb.loc(vb), f"{variant} carries `{show(inp)[:80]}`; required: the item crossbeam handed back")
+
+
+def check_zero_copy_getters(ctx, rule):
+    """callback-style dequeue of the zero-copy containers (what the stand-alone non-blocking queues' `dequeue` is): the getter reads the slot BEFORE the slot id
+    goes back to the pool -- afterwards a concurrent enqueue may already have overwritten it (shared with C18)"""
+    fx = ctx.fx
+    n = 0
+    for adt in (R.AZC, R.FZC):
+        ks = [k for k in fx.by_key if k.startswith(adt + " as ") and k.endswith("::consume")]
+        for k in ks:
+            body = Body(fx.fn(k)); dg = D.Dag(body)
+            site = f"{body.f['file']}:{body.f['line']}"
+            gets = [(b, c) for (b, c) in body.calls if c.get("f") in ("std::ops::FnOnce::call_once", "std::ops::Fn::call", "std::ops::FnMut::call_mut") and c["args"]
+                    and "getter" in show(dg.expr(c["args"][0]))]
+            rels = [(b, c) for (b, c) in body.calls if c.get("fname") in ("release_leaked_id", "release_leaked_ref", "dealloc_id", "dealloc_ref")]
+            n += 1
+            ok = len(gets) == 1 and len(rels) >= 1 and all(body.dominates(gets[0][0], rb) for (rb, _) in rels)
+            ctx.ob(rule, f"{k}|read-before-release", ok, body.loc(rels[0][0]) if rels else site,
+                   f"{len(gets)} getter call(s), {len(rels)} slot release(s); required: the value is read out of the slot before the slot id is returned to the pool "
+                   "(once released, a concurrent enqueue can allocate and overwrite the slot)")
+    if n < 2:
+        raise F.InfraError(f"{rule}: zero-copy consume bodies not found")
